@@ -329,6 +329,14 @@ Definition prog_loop : list instr :=
   [ (*0*) MarkLate; (*1*) ReadFlag; (*2*) JmpIf 8; (*3*) EvWait true; (*4*) JmpIf 6; (*5*) Jmp 1;
     (*6*) Mark 0; (*7*) Jmp 8; (*8*) Mark 1; (*9*) Halt ].
 
+(* a loop task whose FINALISATION step itself waits (self.sleep(d) inside loop_finalize): the loop is only left after a
+   stop request, so that wait starts after stop() was called and must end with the stop exception at once.
+   Marks: 1 = loop_finalize entered, 0 / 3 = the wait inside it ended with the stop exception / by time-out
+   (the loop's own swallowed stop exception is not marked here) *)
+Definition prog_loop_finwait : list instr :=
+  [ (*0*) MarkLate; (*1*) ReadFlag; (*2*) JmpIf 7; (*3*) EvWait true; (*4*) JmpIf 7; (*5*) Jmp 1; (*6*) Jmp 7;
+    (*7*) Mark 1; (*8*) EvWait true; (*9*) JmpIf 12; (*10*) Mark 3; (*11*) Jmp 13; (*12*) Mark 0; (*13*) Halt ].
+
 (* the same two programs for an implementation that tests the stop flag BEFORE registering the condition (a legal
    fast path: the flag is never cleared, so raising at once is what the full procedure would do) *)
 Definition prog_getsig_fast (timed : bool) : list instr :=
@@ -412,7 +420,8 @@ Definition prog_getsig_poll_fast : list instr :=
     Halt ].
 
 Inductive variant := VSleep | VGetSig | VGetSigTimed | VLoop | VGetSigReader | VGetSigTimedReader | VGetSigPoll
-                   | VGetSigF | VGetSigTimedF | VGetSigReaderF | VGetSigTimedReaderF | VGetSigPollF.
+                   | VGetSigF | VGetSigTimedF | VGetSigReaderF | VGetSigTimedReaderF | VGetSigPollF
+                   | VLoopFinWait.
 
 Definition progs (v : variant) (env : bool) (t : tid) : list instr :=
   match t with
@@ -430,5 +439,6 @@ Definition progs (v : variant) (env : bool) (t : tid) : list instr :=
           | VGetSigF | VGetSigReaderF => prog_getsig_fast false
           | VGetSigTimedF | VGetSigTimedReaderF => prog_getsig_fast true
           | VGetSigPollF => prog_getsig_poll_fast
+          | VLoopFinWait => prog_loop_finwait
           end
   end.
